@@ -16,7 +16,9 @@ pub const KF_ZERO_WINDOW: &str = "zero-window-stall";
 pub const KF_LOST_HSACK: &str = "lost-handshake-ack";
 pub const KF_HS_BUDGET: &str = "handshake-retransmits-charged-to-data";
 pub const KF_HS_DATA: &str = "data-on-handshake-completing-segment-discarded";
-pub const ALL_KF: &[&str] = &[KF_LOST_HSACK, KF_ZERO_WINDOW, KF_LOST_ACK, KF_HS_DATA, KF_HS_BUDGET];
+pub const KF_NO_TIMEWAIT: &str = "reset-after-close-destroys-unread-data";
+pub const KF_ZW_REFUSED: &str = "refused-data-charged-to-retransmit-budget";
+pub const ALL_KF: &[&str] = &[KF_NO_TIMEWAIT, KF_ZW_REFUSED, KF_LOST_HSACK, KF_ZERO_WINDOW, KF_LOST_ACK, KF_HS_DATA, KF_HS_BUDGET];
 
 /// Which of the known defects the tree under test still has, decided once per process by running
 /// the three minimal trigger scenarios (the proposed repairs make all three pass).
@@ -27,11 +29,13 @@ pub struct Defects {
     pub lost_hsack: bool,
     pub hs_budget: bool,
     pub hs_data: bool,
+    pub no_timewait: bool,
+    pub zw_refused: bool,
 }
 
 impl Defects {
     pub fn any(&self) -> bool {
-        self.lost_ack || self.zero_window || self.lost_hsack || self.hs_budget || self.hs_data
+        self.lost_ack || self.zero_window || self.lost_hsack || self.hs_budget || self.hs_data || self.no_timewait || self.zw_refused
     }
 }
 
@@ -108,6 +112,29 @@ pub fn canary_hs_data() -> Scenario {
     )
 }
 
+/// (f) no TIME-WAIT: the side that closed first forgets the connection at once and answers a late
+/// (delayed) or retransmitted (its last ACK was lost) segment with RST; the RST aborts the peer and
+/// flushes data and FIN the peer had received but not read yet. Two canaries: a pure ACK that is one
+/// round late, and a lost ACK of the FIN.
+pub fn canary_no_timewait(drop_variant: bool) -> Scenario {
+    let mut srv = plain_side(0, 64, Close::Shutdown);
+    srv.writes = vec![0];
+    srv.read_delay = if drop_variant { 14 } else { 3 };
+    let fault = if drop_variant {
+        Fault { sel: Sel::Kind { dir: C2S, kind: Kind::Ack, nth: 0 }, act: Act::Drop }
+    } else {
+        Fault { sel: Sel::Idx(5), act: Act::Delay(1) }
+    };
+    base_scenario([plain_side(1, 64, Close::Shutdown), srv], base_cfg(), Plan { faults: vec![fault], hole: Hole::None, reorder: vec![] })
+}
+
+/// (g) with `retx_max = 1`, data sent into a window that an overtaken (stale) ACK seemed to re-open
+/// is refused by the full receiver and answered with "window 0" — and that answer does not count
+/// as a sign of life: the one retransmission is used up and the connection is aborted.
+pub fn canary_zw_refused() -> Scenario {
+    serde_json::from_str(r#"{"guarded": false, "via": "Wire", "cfg": {"mtu": 58, "lo_mtu": 1237, "send_cap": 256, "recv_cap": 100, "retx_threshold": 3, "retx_max": 1}, "topo": "CrossV4", "bind_wild": true, "sides": [{"writes": [507], "try_write": false, "reads": [1190, 4096], "peek": 2, "close": "Shutdown", "wait_first": false, "read_delay": 0, "read_after_write": false}, {"writes": [0], "try_write": true, "reads": [25, 4096], "peek": 0, "close": "DropHalf", "wait_first": false, "read_delay": 10, "read_after_write": true}], "plan": {"faults": [{"sel": {"Idx": 19}, "act": {"Delay": 1}}], "hole": "None", "reorder": []}, "poll": "Rot", "spurious": 0, "udp": []}"#).expect("canary scenario parses")
+}
+
 pub fn defects() -> Defects {
     static D: OnceLock<Defects> = OnceLock::new();
     *D.get_or_init(|| Defects {
@@ -116,6 +143,8 @@ pub fn defects() -> Defects {
         lost_hsack: run_conn(&canary_lost_hsack(), false).v6.is_some(),
         hs_budget: run_conn(&canary_hs_budget(), false).v6.is_some(),
         hs_data: run_conn(&canary_hs_data(), false).v6.is_some(),
+        no_timewait: run_conn(&canary_no_timewait(false), false).v6.is_some() || run_conn(&canary_no_timewait(true), false).v6.is_some(),
+        zw_refused: run_conn(&canary_zw_refused(), false).v6.is_some(),
     })
 }
 
@@ -157,6 +186,20 @@ pub fn trigger_hs_data(sc: &Scenario) -> bool {
     sc.cfg.retx_max == 1 && (sc.plan.max_delay() > 0 || sc.plan.reorders() > 0)
 }
 
+pub fn late_reader(sc: &Scenario) -> bool {
+    sc.sides.iter().any(|s| s.read_delay > 0 || s.read_after_write)
+}
+
+/// Static trigger of (f): somebody reads late, and the plan disturbs the wire at all.
+pub fn trigger_no_timewait(sc: &Scenario) -> bool {
+    late_reader(sc) && (!sc.plan.faults.is_empty() || sc.plan.reorders() > 0)
+}
+
+/// Static trigger of (g).
+pub fn trigger_zw_refused(sc: &Scenario) -> bool {
+    sc.cfg.retx_max == 1 && late_reader(sc) && (sc.plan.max_delay() > 0 || sc.plan.reorders() > 0)
+}
+
 /// Dynamic triggers of (a) and (c): which kinds of packets did the plan actually drop?
 pub fn dropped_kinds(fired: &[Fired]) -> Vec<Kind> {
     let mut v: Vec<Kind> = fired.iter().filter(|f| f.act == Act::Drop).map(|f| f.kind).collect();
@@ -178,6 +221,12 @@ pub fn classify_known(sc: &Scenario, out: &Outcome, class: &str) -> Option<&'sta
         return None;
     }
     let dk = dropped_kinds(&out.fired);
+    if class == "ErrorConnectionReset" && trigger_no_timewait(sc) && (!out.fired.is_empty() || sc.plan.reorders() > 0) {
+        return Some(KF_NO_TIMEWAIT);
+    }
+    if class == "ErrorTimedOut" && dk.is_empty() && trigger_zw_refused(sc) && out.zero_window_seen {
+        return Some(KF_ZW_REFUSED);
+    }
     let handshake_only = out.fired.iter().all(|f| matches!(f.kind, Kind::Syn | Kind::SynAck | Kind::HsAck));
     if dk.contains(&Kind::HsAck) && handshake_only {
         return Some(KF_LOST_HSACK);
@@ -378,6 +427,20 @@ pub fn generate(rng: &mut Rng, spread: &Spread) -> Scenario {
         if rng.chance(1, 6) {
             sides[rng.below(2) as usize].wait_first = true;
         }
+        // late readers: data (and the FIN) sit unread while the connection goes on — or goes down
+        if rng.chance(1, 5) {
+            let x = rng.below(2) as usize;
+            let (t, b) = (cfg.retx_threshold as u64, cfg.budget_rounds() as u64);
+            sides[x].read_delay = match rng.below(3) {
+                0 => rng.range(1, 4),
+                1 => rng.range(t, b),
+                _ => b + rng.range(2, 3 * t + 8),
+            } as u32;
+        }
+        // sequential application: write everything (or fail), only then read
+        if rng.chance(1, 8) {
+            sides[rng.below(2) as usize].read_after_write = true;
+        }
         if avoid.zero_window {
             // keep clear of (b): a window that reaches zero is only drained by large reads
             for rx in 0..2 {
@@ -403,6 +466,12 @@ pub fn generate(rng: &mut Rng, spread: &Spread) -> Scenario {
             2 => {
                 let from = rng.below(span as u64 + 4) as u32;
                 let hole = if rng.chance(1, 2) { Hole::All { from } } else { Hole::Dir { from, dir: rng.below(2) as u8 } };
+                // in half of the exhaustion runs one application reads only after the stack must
+                // have given up: whatever it is told then must not look like a clean end
+                if rng.chance(1, 2) {
+                    let x = rng.below(2) as usize;
+                    sides[x].read_delay = from + cfg.budget_rounds() + rng.range(2, 12) as u32;
+                }
                 Plan { faults: vec![], hole, reorder: vec![] }
             }
             _ => gen_heavy_plan(rng, &cfg, span),
@@ -423,7 +492,8 @@ pub fn generate(rng: &mut Rng, spread: &Spread) -> Scenario {
                     3 => rng.range(0, limit as u64 + 40) as u32,
                     _ => limit + rng.range(1, 2000) as u32,
                 };
-                UdpOp { v6, lo, size: size.min(70_000) }
+                let how = *rng.pick(&[UdpHow::SendTo, UdpHow::TrySendTo, UdpHow::ConnSend, UdpHow::ConnTrySend]);
+                UdpOp { v6, lo, size: size.min(70_000), how }
             })
             .collect()
     } else {
@@ -454,6 +524,13 @@ pub fn generate(rng: &mut Rng, spread: &Spread) -> Scenario {
             sc.plan.faults.remove(i);
         }
     }
+    if guarded && mode_of(&sc) == Mode::Bounded && ((avoid.no_timewait && trigger_no_timewait(&sc)) || (avoid.zw_refused && trigger_zw_refused(&sc))) {
+        // keep clear of (f) / (g): under a disturbed wire everybody reads as soon as data is there
+        for x in 0..2 {
+            sc.sides[x].read_delay = 0;
+            sc.sides[x].read_after_write = false;
+        }
+    }
     if guarded && avoid.hs_data && trigger_hs_data(&sc) && mode_of(&sc) == Mode::Bounded {
         // keep clear of (e): a budget of more than one retransmission
         sc.cfg.retx_max = 2;
@@ -471,6 +548,27 @@ pub fn generate(rng: &mut Rng, spread: &Spread) -> Scenario {
 
 pub fn variants(base: &Scenario, tier: Tier, max_single: usize) -> Vec<Scenario> {
     let mut out = vec![base.clone()];
+    if base.topo.cross() && base.plan.hole != Hole::None && base.plan.faults.is_empty() {
+        // exhaustion: the point from which everything is lost is moved over the whole fault-free
+        // packet sequence of this workload
+        let mut free = base.clone();
+        free.plan = Plan::none();
+        let n = run_conn(&free, false).packets.len();
+        let k = max_single.min(n).max(1);
+        for i in 0..k {
+            let from = (i * n / k) as u32;
+            let mut s = base.clone();
+            s.plan.hole = match base.plan.hole {
+                Hole::All { .. } => Hole::All { from },
+                Hole::Dir { dir, .. } => Hole::Dir { from, dir },
+                Hole::None => Hole::None,
+            };
+            if s.plan.hole != base.plan.hole {
+                out.push(s);
+            }
+        }
+        return out;
+    }
     if !base.topo.cross() || !base.plan.is_empty() {
         return out;
     }
@@ -502,6 +600,12 @@ pub fn variants(base: &Scenario, tier: Tier, max_single: usize) -> Vec<Scenario>
             return false;
         }
         if avoid.hs_data && trigger_hs_data(s) {
+            return false;
+        }
+        if avoid.no_timewait && trigger_no_timewait(s) {
+            return false;
+        }
+        if avoid.zw_refused && trigger_zw_refused(s) {
             return false;
         }
         !(avoid.zero_window && trigger_zero_window(s))
@@ -582,6 +686,20 @@ pub fn shrink(sc: &Scenario) -> Vec<Scenario> {
             }
         }
     }
+    match sc.plan.hole {
+        Hole::All { from } | Hole::Dir { from, .. } if from > 0 => {
+            for f in [from / 2, from - 1] {
+                let mut s = sc.clone();
+                s.plan.hole = match sc.plan.hole {
+                    Hole::All { .. } => Hole::All { from: f },
+                    Hole::Dir { dir, .. } => Hole::Dir { from: f, dir },
+                    Hole::None => Hole::None,
+                };
+                push(s);
+            }
+        }
+        _ => {}
+    }
     if !sc.plan.reorder.is_empty() {
         let mut s = sc.clone();
         s.plan.reorder.clear();
@@ -644,6 +762,19 @@ pub fn shrink(sc: &Scenario) -> Vec<Scenario> {
         if side.wait_first {
             let mut s = sc.clone();
             s.sides[x].wait_first = false;
+            push(s);
+        }
+        if side.read_delay > 0 {
+            let mut s = sc.clone();
+            s.sides[x].read_delay = 0;
+            push(s);
+            let mut s = sc.clone();
+            s.sides[x].read_delay = side.read_delay / 2;
+            push(s);
+        }
+        if side.read_after_write {
+            let mut s = sc.clone();
+            s.sides[x].read_after_write = false;
             push(s);
         }
         if side.close != Close::Shutdown {
@@ -725,7 +856,7 @@ pub fn signature(sc: &Scenario, out: &Outcome, class: &str) -> String {
         })
         .collect();
     format!(
-        "{known}{}{} {:?} {:?} mss={} caps(s{},r{}) T{} M{} totals({},{}) minread({},{}) zw={} hole={:?} reorder={} faults[{}]",
+        "{known}{}{} {:?} {:?} mss={} caps(s{},r{}) T{} M{} totals({},{}) minread({},{}) late({}{},{}{}) zw={} hole={:?} reorder={} faults[{}]",
         if sc.guarded { "G" } else { "U" },
         if sc.via == Via::Fixture { " FIXTURE" } else { "" },
         out.mode,
@@ -739,6 +870,10 @@ pub fn signature(sc: &Scenario, out: &Outcome, class: &str) -> String {
         sc.sides[1].total(),
         sc.sides[0].min_read(),
         sc.sides[1].min_read(),
+        sc.sides[0].read_delay,
+        if sc.sides[0].read_after_write { "w" } else { "" },
+        sc.sides[1].read_delay,
+        if sc.sides[1].read_after_write { "w" } else { "" },
         out.zero_window_seen,
         sc.plan.hole,
         sc.plan.reorders(),
